@@ -21,6 +21,7 @@ cp coq/extract/model.ml coq/extract/model.mli ocaml/
 (cd ocaml && ocamlfind ocamlopt model.mli model.ml driver.ml -o driver 2>/dev/null)
 # 4. harness (also warms the build cache)
 cp ${VERIF_REPO:-/repo}/go.sum harness/go.sum
+sed -i "s#^replace git.sr.ht/~adrian-blx/psa-dhcp => .*#replace git.sr.ht/~adrian-blx/psa-dhcp => ${VERIF_REPO:-/repo}#" harness/go.mod
 (cd harness && go1.26.8 vet -tags verif . >/dev/null 2>&1 || true; go1.26.8 test -c -tags verif -o ../work/bin/harness-setup.test . )
 rm -f work/bin/harness-setup.test
 echo "setup ok"
